@@ -105,3 +105,469 @@ Proof.
   rewrite !re_match_Alt, re_match_Empty, orb_false_r.
   rewrite !match_simple_re by discriminate. reflexivity.
 Qed.
+(* ------------------------------------------------------------------ hexadecimal *)
+Definition is_hexchar (x : N) : bool := ((48 <=? x) && (x <=? 57)) || ((97 <=? x) && (x <=? 102)).
+
+Lemma hex_digit_char : forall d, d < 16 -> is_hexchar (hex_digit d) = true.
+Proof.
+  intros d Hd. unfold hex_digit, is_hexchar.
+  destruct (d <? 10) eqn:E.
+  - apply N.ltb_lt in E. apply orb_true_iff. left. apply andb_true_iff. split; apply N.leb_le; lia.
+  - apply N.ltb_ge in E. apply orb_true_iff. right. apply andb_true_iff. split; apply N.leb_le; lia.
+Qed.
+
+Lemma hex_val_digit : forall d, d < 16 -> hex_val (hex_digit d) = Some d.
+Proof.
+  intros d Hd. unfold hex_digit, hex_val.
+  destruct (d <? 10) eqn:E.
+  - apply N.ltb_lt in E.
+    replace ((48 <=? 48 + d) && (48 + d <=? 57)) with true.
+    + f_equal. lia.
+    + symmetry. apply andb_true_iff. split; apply N.leb_le; lia.
+  - apply N.ltb_ge in E.
+    replace ((48 <=? 87 + d) && (87 + d <=? 57)) with false.
+    + replace ((97 <=? 87 + d) && (87 + d <=? 102)) with true.
+      * f_equal. lia.
+      * symmetry. apply andb_true_iff. split; apply N.leb_le; lia.
+    + symmetry. apply andb_false_iff. right. apply N.leb_gt. lia.
+Qed.
+
+Lemma hex_num_app : forall l1 l2 acc,
+  hex_num (l1 ++ l2) acc = match hex_num l1 acc with Some a => hex_num l2 a | None => None end.
+Proof.
+  induction l1 as [|c l1 IH]; intros l2 acc; cbn [app hex_num]; [reflexivity|].
+  destruct (hex_val c); [apply IH | reflexivity].
+Qed.
+
+Lemma hex_num_digits : forall k c acc,
+  hex_num (hex_digits k c) acc = Some (acc * 16 ^ N.of_nat k + c mod 16 ^ N.of_nat k).
+Proof.
+  induction k as [|k IH]; intros c acc.
+  - cbn [hex_digits hex_num]. change (N.of_nat 0) with 0. rewrite N.pow_0_r, N.mod_1_r. f_equal. lia.
+  - cbn [hex_digits]. rewrite hex_num_app, IH. cbn [hex_num].
+    rewrite hex_val_digit by (apply N.mod_lt; discriminate).
+    f_equal. rewrite Nat2N.inj_succ, N.pow_succ_r'.
+    rewrite (N.mod_mul_r c 16 (16 ^ N.of_nat k)) by (try discriminate; apply N.pow_nonzero; discriminate).
+    lia.
+Qed.
+
+Lemma hex_digits_chars : forall k c, forallb is_hexchar (hex_digits k c) = true.
+Proof.
+  induction k as [|k IH]; intros c; cbn [hex_digits]; [reflexivity|].
+  rewrite forallb_app, IH. cbn [forallb]. rewrite hex_digit_char by (apply N.mod_lt; discriminate). reflexivity.
+Qed.
+(* ------------------------------------------------------------------ generic quoting round trip *)
+Definition plain (q x : N) : bool := negb (x =? q) && negb (x =? 92).
+(* may stand in a one-line literal: no NUL, surrogate, out-of-range, CR, LF *)
+Definition clean_char (x : N) : bool := negb (bad_source_char x) && negb (x =? 13) && negb (x =? 10).
+
+Lemma scan_plain : forall q l rest, forallb (plain q) l = true ->
+  scan_simple q (l ++ rest) = scan_simple q rest.
+Proof.
+  induction l as [|x l IH]; intros rest H; [reflexivity|].
+  cbn [forallb] in H. apply andb_true_iff in H. destruct H as [Hx Hl].
+  unfold plain in Hx. apply andb_true_iff in Hx. destruct Hx as [H1 H2].
+  apply negb_true_iff in H1. apply negb_true_iff in H2.
+  cbn [app scan_simple]. rewrite H1, H2. apply IH. exact Hl.
+Qed.
+
+Lemma scan_escape : forall q d rest, q <> 92 -> d <> 10 ->
+  scan_simple q (92 :: d :: rest) = scan_simple q rest.
+Proof.
+  intros q d rest Hq Hd. cbn [scan_simple].
+  replace (92 =? q) with false by (symmetry; apply N.eqb_neq; congruence).
+  cbn. replace (d =? 10) with false by (symmetry; apply N.eqb_neq; congruence). reflexivity.
+Qed.
+
+Lemma body_plain : forall q c rest, c <> q -> c <> 10 -> c <> 92 ->
+  body q false (c :: rest) = push c (body q false rest).
+Proof.
+  intros q c rest H1 H2 H3. cbn [body].
+  apply N.eqb_neq in H1. apply N.eqb_neq in H2. apply N.eqb_neq in H3.
+  rewrite H1, H2, H3. reflexivity.
+Qed.
+
+Lemma normalize_no_cr : forall s, forallb (fun x => negb (x =? 13)) s = true -> normalize_newlines s = s.
+Proof.
+  induction s as [|c s IH]; intros H; [reflexivity|].
+  cbn [forallb] in H. apply andb_true_iff in H. destruct H as [Hc Hs].
+  apply negb_true_iff in Hc. cbn [normalize_newlines]. rewrite Hc. f_equal. apply IH. exact Hs.
+Qed.
+
+Lemma open_quote_single : forall q x tl, x <> q -> open_quote q (x :: tl) = (false, x :: tl).
+Proof.
+  intros q x tl H. unfold open_quote. destruct tl as [|y tl]; [reflexivity|].
+  replace (x =? q) with false by (symmetry; apply N.eqb_neq; exact H). reflexivity.
+Qed.
+
+Section Roundtrip.
+  Variable q : N.
+  Variable esc : N -> text.
+  Variable valid : N -> Prop.
+  Hypothesis q_quote : q = 34 \/ q = 39.
+  Hypothesis esc_scan : forall c rest, valid c -> scan_simple q (esc c ++ rest) = scan_simple q rest.
+  Hypothesis esc_body : forall c rest, valid c -> body q false (esc c ++ rest) = push c (body q false rest).
+  Hypothesis esc_clean : forall c, valid c -> forallb clean_char (esc c) = true.
+  Hypothesis esc_head : forall c, valid c -> exists x tl, esc c = x :: tl /\ x <> q.
+
+  Definition quoted (s : text) : text := q :: flat_map esc s ++ [q].
+
+  Lemma q_props : q <> 92 /\ q <> 10 /\ clean_char q = true /\ is_quote q = true.
+  Proof. destruct q_quote as [-> | ->]; repeat split; discriminate || reflexivity. Qed.
+
+  Lemma rt_scan : forall s, Forall valid s -> scan_simple q (flat_map esc s ++ [q]) = true.
+  Proof.
+    induction s as [|c s IH]; intros H.
+    - cbn. rewrite N.eqb_refl. reflexivity.
+    - inversion H; subst. cbn [flat_map]. rewrite <- app_assoc, esc_scan by assumption. apply IH. assumption.
+  Qed.
+
+  Lemma rt_body : forall s, Forall valid s -> body q false (flat_map esc s ++ [q]) = LOk s [].
+  Proof.
+    induction s as [|c s IH]; intros H.
+    - cbn. rewrite N.eqb_refl. reflexivity.
+    - inversion H; subst. cbn [flat_map]. rewrite <- app_assoc, esc_body by assumption.
+      rewrite IH by assumption. reflexivity.
+  Qed.
+
+  Lemma rt_clean : forall s, Forall valid s -> forallb clean_char (quoted s) = true.
+  Proof.
+    intros s H. unfold quoted. cbn [forallb]. destruct q_props as (_ & _ & Hc & _). rewrite Hc. cbn [andb].
+    rewrite forallb_app. cbn [forallb]. rewrite Hc, andb_true_r.
+    induction H as [|c s Hc' Hs IH]; [reflexivity|].
+    cbn [flat_map]. rewrite forallb_app, esc_clean by assumption. exact IH.
+  Qed.
+
+  Lemma rt_head : forall s, Forall valid s -> open_quote q (flat_map esc s ++ [q]) = (false, flat_map esc s ++ [q]).
+  Proof.
+    intros s H. destruct H as [|c s Hc Hs]; [reflexivity|].
+    cbn [flat_map]. destruct (esc_head c Hc) as (x & tl & E & Hx). rewrite E. cbn [app].
+    apply open_quote_single. exact Hx.
+  Qed.
+
+  Lemma rt_is_simple : forall s, Forall valid s -> simple_rec q (quoted s) = true.
+  Proof.
+    intros s H. unfold quoted, simple_rec. rewrite N.eqb_refl. cbn [andb]. apply rt_scan. exact H.
+  Qed.
+
+  Lemma rt_eval : forall s, Forall valid s -> py_str_literal_eval (quoted s) = ROk s.
+  Proof.
+    intros s H. unfold py_str_literal_eval.
+    pose proof (rt_clean s H) as Hc.
+    assert (Hbad : existsb bad_source_char (quoted s) = false).
+    { apply not_true_is_false. intros Hex. apply existsb_exists in Hex. destruct Hex as (x & Hin & Hx).
+      rewrite forallb_forall in Hc. specialize (Hc x Hin). unfold clean_char in Hc. rewrite Hx in Hc. discriminate. }
+    rewrite Hbad.
+    rewrite normalize_no_cr.
+    2:{ apply forallb_forall. intros x Hin. rewrite forallb_forall in Hc. specialize (Hc x Hin).
+        unfold clean_char in Hc. apply andb_true_iff in Hc. destruct Hc as [Hc _].
+        apply andb_true_iff in Hc. destruct Hc as [_ Hc]. exact Hc. }
+    unfold quoted. destruct q_props as (_ & _ & _ & Hq). rewrite Hq.
+    rewrite rt_head by assumption. rewrite rt_body by assumption. reflexivity.
+  Qed.
+End Roundtrip.
+(* ------------------------------------------------------------------ the escape shapes *)
+Lemma hexchar_plain : forall q x, q = 34 \/ q = 39 -> is_hexchar x = true -> plain q x = true.
+Proof.
+  intros q x Hq H. unfold is_hexchar in H. unfold plain.
+  apply orb_true_iff in H. apply andb_true_iff.
+  destruct H as [H|H]; apply andb_true_iff in H; destruct H as [H1 H2];
+    apply N.leb_le in H1; apply N.leb_le in H2;
+    split; apply negb_true_iff; apply N.eqb_neq; destruct Hq; subst; lia.
+Qed.
+
+Lemma hexchar_clean : forall x, is_hexchar x = true -> clean_char x = true.
+Proof.
+  intros x H. unfold is_hexchar in H. unfold clean_char, bad_source_char, is_surrogate.
+  apply orb_true_iff in H.
+  assert (48 <= x <= 102) as Hr.
+  { destruct H as [H|H]; apply andb_true_iff in H; destruct H as [H1 H2];
+      apply N.leb_le in H1; apply N.leb_le in H2; lia. }
+  replace (x =? 0) with false by (symmetry; apply N.eqb_neq; lia).
+  replace (55296 <=? x) with false by (symmetry; apply N.leb_gt; lia).
+  replace (1114112 <=? x) with false by (symmetry; apply N.leb_gt; lia).
+  replace (x =? 13) with false by (symmetry; apply N.eqb_neq; lia).
+  replace (x =? 10) with false by (symmetry; apply N.eqb_neq; lia).
+  reflexivity.
+Qed.
+
+Lemma forallb_impl : forall (A : Type) (f g : A -> bool) l,
+  (forall x, f x = true -> g x = true) -> forallb f l = true -> forallb g l = true.
+Proof.
+  intros A f g l H Hl. rewrite forallb_forall in *. intros x Hx. apply H. apply Hl. exact Hx.
+Qed.
+
+Lemma hex_escape_digits : forall k c limit K,
+  c < 16 ^ N.of_nat k -> c < limit ->
+  hex_escape (hex_digits k c) limit K = push c K.
+Proof.
+  intros k c limit K H1 H2. unfold hex_escape. rewrite hex_num_digits.
+  rewrite N.mul_0_l, N.add_0_l, N.mod_small by exact H1.
+  apply N.ltb_lt in H2. rewrite H2. reflexivity.
+Qed.
+
+Section Shapes.
+  Variable q : N.
+  Hypothesis q_quote : q = 34 \/ q = 39.
+
+  Lemma body_hex2 : forall c rest, c < 256 ->
+    body q false (92 :: 120 :: hex_digits 2 c ++ rest) = push c (body q false rest).
+  Proof.
+    intros c rest Hc.
+    assert (E : exists a b, hex_digits 2 c = [a; b]) by (cbn; eauto).
+    destruct E as (a & b & E).
+    rewrite <- (hex_escape_digits 2 c 256 (body q false rest)) by (cbn; lia).
+    rewrite E. destruct q_quote; subst q; reflexivity.
+  Qed.
+
+  Lemma body_hex4 : forall c rest, c < 65536 ->
+    body q false (92 :: 117 :: hex_digits 4 c ++ rest) = push c (body q false rest).
+  Proof.
+    intros c rest Hc.
+    assert (E : exists a1 a2 a3 a4, hex_digits 4 c = [a1; a2; a3; a4]) by (cbn; eauto 6).
+    destruct E as (a1 & a2 & a3 & a4 & E).
+    rewrite <- (hex_escape_digits 4 c 65536 (body q false rest)) by (cbn; lia).
+    rewrite E. destruct q_quote; subst q; reflexivity.
+  Qed.
+
+  Lemma body_hex8 : forall c rest, c < 1114112 ->
+    body q false (92 :: 85 :: hex_digits 8 c ++ rest) = push c (body q false rest).
+  Proof.
+    intros c rest Hc.
+    assert (E : exists a1 a2 a3 a4 a5 a6 a7 a8, hex_digits 8 c = [a1; a2; a3; a4; a5; a6; a7; a8])
+      by (cbn; eauto 10).
+    destruct E as (a1 & a2 & a3 & a4 & a5 & a6 & a7 & a8 & E).
+    rewrite <- (hex_escape_digits 8 c 1114112 (body q false rest)) by (cbn; lia).
+    rewrite E. destruct q_quote; subst q; reflexivity.
+  Qed.
+
+  Lemma scan_hex : forall e k c rest, e <> 10 ->
+    scan_simple q (92 :: e :: hex_digits k c ++ rest) = scan_simple q rest.
+  Proof.
+    intros e k c rest He. rewrite scan_escape; [| destruct q_quote; subst; discriminate | exact He].
+    apply scan_plain. eapply forallb_impl; [| apply hex_digits_chars].
+    intros x Hx. apply hexchar_plain; assumption.
+  Qed.
+
+  Lemma clean_hex : forall e k c, clean_char e = true -> forallb clean_char (92 :: e :: hex_digits k c) = true.
+  Proof.
+    intros e k c He. cbn [forallb]. rewrite He. cbn [andb].
+    replace (clean_char 92) with true by reflexivity. cbn [andb].
+    eapply forallb_impl; [| apply hex_digits_chars]. apply hexchar_clean.
+  Qed.
+End Shapes.
+(* ------------------------------------------------------------------ repr() *)
+Definition repr_valid (printable : N -> bool) (c : N) : Prop :=
+  c < 1114112 /\ (printable c = true -> is_surrogate c = false).
+
+Lemma clean_char_intro : forall x,
+  x <> 0 -> is_surrogate x = false -> x < 1114112 -> x <> 13 -> x <> 10 -> clean_char x = true.
+Proof.
+  intros x H0 Hs Hr H13 H10. unfold clean_char, bad_source_char. rewrite Hs.
+  apply N.eqb_neq in H0. apply N.eqb_neq in H13. apply N.eqb_neq in H10. rewrite H0, H13, H10.
+  replace (1114112 <=? x) with false by (symmetry; apply N.leb_gt; exact Hr). reflexivity.
+Qed.
+
+Lemma not_surrogate_small : forall x, x < 55296 -> is_surrogate x = false.
+Proof. intros x H. unfold is_surrogate. replace (55296 <=? x) with false by (symmetry; apply N.leb_gt; exact H). reflexivity. Qed.
+
+Section ReprChar.
+  Variable printable : N -> bool.
+  Variable q : N.
+  Hypothesis q_quote : q = 34 \/ q = 39.
+
+  (* the shape of repr_char, with what is known in each branch *)
+  Inductive shape (c : N) : text -> Prop :=
+  | ShPair : (c = q \/ c = 92) -> shape c [92; c]
+  | ShTab : c = 9 -> shape c [92; 116]
+  | ShLf : c = 10 -> shape c [92; 110]
+  | ShCr : c = 13 -> shape c [92; 114]
+  | ShX : c < 256 -> shape c (92 :: 120 :: hex_digits 2 c)
+  | ShU : c < 65536 -> shape c (92 :: 117 :: hex_digits 4 c)
+  | ShUU : c < 1114112 -> shape c (92 :: 85 :: hex_digits 8 c)
+  | ShSelf : c <> q -> c <> 92 -> c <> 10 -> c <> 13 -> c <> 0 -> is_surrogate c = false -> c < 1114112 -> shape c [c].
+
+  Lemma repr_char_shape : forall c, repr_valid printable c -> shape c (repr_char printable q c).
+  Proof.
+    intros c [Hr Hp]. unfold repr_char.
+    destruct ((c =? q) || (c =? 92)) eqn:E1.
+    { apply ShPair. apply orb_true_iff in E1. destruct E1 as [E|E]; apply N.eqb_eq in E; auto. }
+    apply orb_false_iff in E1. destruct E1 as [Eq Eb]. apply N.eqb_neq in Eq. apply N.eqb_neq in Eb.
+    destruct (c =? 9) eqn:E2. { apply ShTab. apply N.eqb_eq. exact E2. }
+    destruct (c =? 10) eqn:E3. { apply ShLf. apply N.eqb_eq. exact E3. }
+    destruct (c =? 13) eqn:E4. { apply ShCr. apply N.eqb_eq. exact E4. }
+    destruct ((c <? 32) || (c =? 127)) eqn:E5.
+    { apply ShX. apply orb_true_iff in E5. destruct E5 as [E|E]; [apply N.ltb_lt in E | apply N.eqb_eq in E]; lia. }
+    apply orb_false_iff in E5. destruct E5 as [E32 E127]. apply N.ltb_ge in E32. apply N.eqb_neq in E127.
+    destruct (c <? 127) eqn:E6.
+    { apply N.ltb_lt in E6. apply ShSelf; auto; try lia. apply not_surrogate_small. lia. }
+    destruct (printable c) eqn:E7.
+    { apply ShSelf; auto; lia. }
+    destruct (c <? 256) eqn:E8. { apply ShX. apply N.ltb_lt. exact E8. }
+    destruct (c <? 65536) eqn:E9. { apply ShU. apply N.ltb_lt. exact E9. }
+    apply ShUU. exact Hr.
+  Qed.
+
+  Lemma shape_scan : forall c t rest, shape c t -> scan_simple q (t ++ rest) = scan_simple q rest.
+  Proof.
+    intros c t rest H.
+    assert (Hq92 : q <> 92) by (destruct q_quote; lia).
+    destruct H as [H|H|H|H|H|H|H|H1 H2 H3 H4 H5 H6 H7]; cbn [app].
+    - apply scan_escape; [exact Hq92|]. destruct H as [H|H]; [destruct q_quote|]; subst; discriminate.
+    - apply scan_escape; [exact Hq92 | discriminate].
+    - apply scan_escape; [exact Hq92 | discriminate].
+    - apply scan_escape; [exact Hq92 | discriminate].
+    - apply scan_hex; [exact q_quote | discriminate].
+    - apply scan_hex; [exact q_quote | discriminate].
+    - apply scan_hex; [exact q_quote | discriminate].
+    - apply (scan_plain q [c]). cbn [forallb]. unfold plain.
+      apply N.eqb_neq in H1. apply N.eqb_neq in H2. rewrite H1, H2. reflexivity.
+  Qed.
+
+  Lemma shape_body : forall c t rest, shape c t -> body q false (t ++ rest) = push c (body q false rest).
+  Proof.
+    intros c t rest H.
+    destruct H as [H|H|H|H|H|H|H|H1 H2 H3 H4 H5 H6 H7]; cbn [app].
+    - destruct H as [H|H]; subst c; destruct q_quote; subst q; reflexivity.
+    - subst c. destruct q_quote; subst q; reflexivity.
+    - subst c. destruct q_quote; subst q; reflexivity.
+    - subst c. destruct q_quote; subst q; reflexivity.
+    - apply body_hex2; assumption.
+    - apply body_hex4; assumption.
+    - apply body_hex8; assumption.
+    - apply body_plain; assumption.
+  Qed.
+
+  Lemma shape_clean : forall c t, shape c t -> forallb clean_char t = true.
+  Proof.
+    intros c t H.
+    destruct H as [H|H|H|H|H|H|H|H1 H2 H3 H4 H5 H6 H7].
+    - destruct H as [H|H]; subst c; [destruct q_quote; subst q|]; reflexivity.
+    - reflexivity.
+    - reflexivity.
+    - reflexivity.
+    - apply clean_hex. reflexivity.
+    - apply clean_hex. reflexivity.
+    - apply clean_hex. reflexivity.
+    - cbn [forallb]. rewrite clean_char_intro; auto.
+  Qed.
+
+  Lemma shape_head : forall c t, shape c t -> exists x tl, t = x :: tl /\ x <> q.
+  Proof.
+    intros c t H.
+    assert (Hq92 : 92 <> q) by (destruct q_quote; lia).
+    destruct H as [H|H|H|H|H|H|H|H1 H2 H3 H4 H5 H6 H7]; eauto.
+  Qed.
+End ReprChar.
+
+Lemma repr_quote_is_quote : forall s, repr_quote s = 34 \/ repr_quote s = 39.
+Proof. intros s. unfold repr_quote. destruct (_ && _); auto. Qed.
+
+Theorem repr_is_quoted : forall printable s, Forall (repr_valid printable) s ->
+  simple_rec (repr_quote s) (py_repr printable s) = true.
+Proof.
+  intros printable s H. unfold py_repr.
+  apply (rt_is_simple (repr_quote s) (repr_char printable (repr_quote s)) (repr_valid printable)); auto.
+  intros c rest Hc. apply shape_scan with (c := c); [apply repr_quote_is_quote | apply repr_char_shape; auto using repr_quote_is_quote].
+Qed.
+
+Theorem repr_eval : forall printable s, Forall (repr_valid printable) s ->
+  py_str_literal_eval (py_repr printable s) = ROk s.
+Proof.
+  intros printable s H. unfold py_repr.
+  pose proof (repr_quote_is_quote s) as Hq.
+  apply (rt_eval (repr_quote s) (repr_char printable (repr_quote s)) (repr_valid printable)); auto.
+  - intros c rest Hc. apply shape_scan with (c := c); auto using repr_char_shape.
+  - intros c rest Hc. apply shape_body; auto using repr_char_shape.
+  - intros c Hc. apply shape_clean with (q := repr_quote s) (c := c); auto using repr_char_shape.
+  - intros c Hc. apply shape_head with (c := c); auto using repr_char_shape.
+Qed.
+
+(* ------------------------------------------------------------------ the double-quote quoting functions *)
+Lemma raw_ok_facts : forall c, raw_ok c = true -> c <> 13 /\ c <> 0 /\ is_surrogate c = false /\ c < 1114112.
+Proof.
+  intros c H. unfold raw_ok, bad_source_char in H.
+  apply andb_true_iff in H. destruct H as [H13 Hb].
+  apply negb_true_iff in H13. apply N.eqb_neq in H13.
+  apply negb_true_iff in Hb. apply orb_false_iff in Hb. destruct Hb as [Hb Hr].
+  apply orb_false_iff in Hb. destruct Hb as [H0 Hs].
+  apply N.eqb_neq in H0. apply N.leb_gt in Hr. auto.
+Qed.
+
+Lemma dq_char_shape : forall c, raw_ok c = true -> shape 34 c (dq_char c).
+Proof.
+  intros c H. destruct (raw_ok_facts c H) as (H13 & H0 & Hs & Hr). unfold dq_char.
+  destruct (c =? 92) eqn:E1. { apply N.eqb_eq in E1. subst c. apply ShPair. auto. }
+  destruct (c =? 34) eqn:E2. { apply N.eqb_eq in E2. subst c. apply ShPair. auto. }
+  destruct (c =? 10) eqn:E3. { apply N.eqb_eq in E3. apply ShLf. exact E3. }
+  apply N.eqb_neq in E1. apply N.eqb_neq in E2. apply N.eqb_neq in E3. apply ShSelf; auto.
+Qed.
+
+Lemma dq_char_full_shape : forall c, c < 1114112 -> shape 34 c (dq_char_full c).
+Proof.
+  intros c Hr. unfold dq_char_full.
+  destruct (c =? 92) eqn:E1. { apply N.eqb_eq in E1. subst c. apply ShPair. auto. }
+  destruct (c =? 34) eqn:E2. { apply N.eqb_eq in E2. subst c. apply ShPair. auto. }
+  destruct (c =? 10) eqn:E3. { apply N.eqb_eq in E3. apply ShLf. exact E3. }
+  destruct (c =? 13) eqn:E4. { apply N.eqb_eq in E4. apply ShCr. exact E4. }
+  destruct (c =? 0) eqn:E5. { apply N.eqb_eq in E5. apply ShX. lia. }
+  destruct (is_surrogate c) eqn:E6.
+  { apply ShU. unfold is_surrogate in E6. apply andb_true_iff in E6. destruct E6 as [_ E6]. apply N.leb_le in E6. lia. }
+  apply N.eqb_neq in E1. apply N.eqb_neq in E2. apply N.eqb_neq in E3. apply N.eqb_neq in E4. apply N.eqb_neq in E5.
+  apply ShSelf; auto.
+Qed.
+
+Section DQ.
+  Variable esc : N -> text.
+  Variable valid : N -> Prop.
+  Hypothesis esc_shape : forall c, valid c -> shape 34 c (esc c).
+  Let Q : 34 = 34 \/ 34 = 39 := or_introl eq_refl.
+
+  Lemma dq_is_quoted : forall s, Forall valid s -> simple_rec 34 (34 :: flat_map esc s ++ [34]) = true.
+  Proof.
+    intros s H. apply (rt_is_simple 34 esc valid); auto.
+    intros c rest Hc. apply shape_scan with (c := c); auto.
+  Qed.
+
+  Lemma dq_eval : forall s, Forall valid s -> py_str_literal_eval (34 :: flat_map esc s ++ [34]) = ROk s.
+  Proof.
+    intros s H. apply (rt_eval 34 esc valid); auto.
+    - intros c rest Hc. apply shape_scan with (c := c); auto.
+    - intros c rest Hc. apply shape_body; auto.
+    - intros c Hc. apply shape_clean with (q := 34) (c := c); auto.
+    - intros c Hc. apply shape_head with (c := c); auto.
+  Qed.
+End DQ.
+
+(* ------------------------------------------------------------------ unquote_str on what the quoting functions emit *)
+Lemma is_quoted_simple : forall q x triple, q = 34 \/ q = 39 -> simple_rec q x = true -> is_quoted x triple = true.
+Proof.
+  intros q x triple Hq H. unfold is_quoted. rewrite quoted_regex_is_recogniser.
+  destruct Hq; subst q; rewrite H; rewrite ?orb_true_r; reflexivity.
+Qed.
+
+Theorem unquote_repr : forall printable s triple,
+  Forall (repr_valid printable) s -> unquote_str (py_repr printable s) triple = UOk s.
+Proof.
+  intros printable s triple H. unfold unquote_str.
+  rewrite (is_quoted_simple (repr_quote s)); auto using repr_quote_is_quote, repr_is_quoted.
+  rewrite repr_eval by assumption. reflexivity.
+Qed.
+
+Theorem unquote_dq : forall s triple,
+  Forall (fun c => raw_ok c = true) s -> unquote_str (dq_quote s) triple = UOk s.
+Proof.
+  intros s triple H. unfold unquote_str, dq_quote.
+  rewrite (is_quoted_simple 34); auto.
+  - rewrite (dq_eval dq_char (fun c => raw_ok c = true)); auto using dq_char_shape.
+  - apply (dq_is_quoted dq_char (fun c => raw_ok c = true)); auto using dq_char_shape.
+Qed.
+
+Theorem unquote_dq_full : forall s triple,
+  Forall (fun c => c < 1114112) s -> unquote_str (dq_quote_full s) triple = UOk s.
+Proof.
+  intros s triple H. unfold unquote_str, dq_quote_full.
+  rewrite (is_quoted_simple 34); auto.
+  - rewrite (dq_eval dq_char_full (fun c => c < 1114112)); auto using dq_char_full_shape.
+  - apply (dq_is_quoted dq_char_full (fun c => c < 1114112)); auto using dq_char_full_shape.
+Qed.
